@@ -93,7 +93,25 @@ def r4_points(vars_, seed, oid, n_random=4, cap=28):
     return pts[:cap + n_random]
 
 
+def run_native_only(ob):
+    """exhaustive native enumeration obligations (stated as such in the evidence): no symbolic input"""
+    t0 = time.time()
+    sys.setprofile(_profile)
+    try:
+        ok, info, _u = native(ob, {})
+    finally:
+        sys.setprofile(None)
+    n = getattr(ob, "ncases", 1)
+    return {"oid": ob.oid, "status": "confirmed" if ok else "refuted", "reason": "", "paths": 0, "forks": 0,
+            "solver_checks": 0, "solver_s": 0, "cpu_s": round(time.time() - t0, 3), "cex": {}, "info": _jsonable(info),
+            "known": [], "exc": None, "vars": {}, "native_runs": n, "native_bad": None, "replayed": (not ok),
+            "replay_info": _jsonable(info), "funcs": sorted(_FUNCS), "wall_s": round(time.time() - t0, 3),
+            "text": ob.text, "enumerated": n}
+
+
 def run_one(ob, seed, tier):
+    if getattr(ob, "native_only", False):
+        return run_native_only(ob)
     t0 = time.time()
     res = explore(lambda: ob.run(_symctx()), timeout=ob.timeout)
     out = {
